@@ -153,6 +153,39 @@ CHECKS = {
         "Same accounting limits as C04.",
         "DESIGN.md section 4 C12",
     ),
+    "C14": (
+        "crash-point enumeration: every write-call boundary / every byte length of the pre-finalize output (exhaustive per case) over proptest-generated encodes",
+        "fault_enumeration",
+        "Each generated encode (declared/undeclared total x seek-table policy x padding x extra metadata x front-end x chunking) runs "
+        "through a recording writer and stops before finalize (writer leaked, never dropped). For every prefix at write-call "
+        "granularity, and at every byte for outputs up to 2 KiB, the decoder must deliver exactly the PCM of the frames that the "
+        "independent frame map places wholly inside the prefix, then end-of-data or an error; the pre-finalize output must be "
+        "append-only and contain every whole block already.",
+        "Crash = loss of everything after a prefix of the appended bytes; reordering of writes by the OS is outside the model.",
+        "DESIGN.md section 4 C14",
+    ),
+    "C15": (
+        "boundary-value grid + proptest combinations over constructor arguments and option values, with a legality oracle derived from the documentation",
+        "exploration",
+        "Sample rate, depth, channels, declared total (each writer's unit), block size, LPC order, partition order, padding, windows "
+        "and seek policies are swept over boundary (0, 1, max, max+1, type max) and interior values for the three writers; the test "
+        "signal is then written in chunks totalling exactly / fewer / more PCM frames than declared. Setters and constructors must "
+        "return Ok exactly for documented values and never unwind; legal combinations must produce a file that round-trips with the "
+        "right STREAMINFO; over-filling must be reported, under-filling must fail at finalize, undeclared totals must be recorded. "
+        "FlacStreamWriter::write arguments likewise. Both build profiles.",
+        "Some(0) as a declared total has no expected outcome; constructions that only enumerate > 10^7 placeholder seek points are skipped (counted).",
+        "DESIGN.md section 4 C15",
+    ),
+    "C19": (
+        "proptest over predictor-adversarial signals + exhaustive constant-block grid; per-frame size bound from the independent frame map",
+        "exploration",
+        "Full-scale noise, alternating extremes, Rice-hostile blocks, steps, impulses at the rails and the general C01 generator, "
+        "crossed with all option sets and block sizes to 65535: every frame must satisfy bytes <= 64 + ceil(n x channels x bps [+ n "
+        "for a stereo pair] / 8); a grid of constant blocks (lengths 16..65535 x 1-8 channels x constant classes x depths x LPC x "
+        "partition order) must cost <= 64 + 96 x channels bytes per frame.",
+        "The 64-byte allowance is the harness's reading of 'a fixed header-and-footer allowance'; worst observed ratio is reported in the evidence.",
+        "DESIGN.md section 4 C19",
+    ),
 }
 
 NOT_YET = {}
